@@ -5,9 +5,12 @@ import Solvor.Path.Sqrt2
 import Solvor.Path.HSearch
 import Solvor.Path.Dijkstra
 import Solvor.Path.FloydWarshall
+import Solvor.Path.BFRounds
+import Solvor.Path.FWLower
 /-!
-Path: the property theorems of C11 (helper lemmas are in `Lemmas.lean`, `BellmanFord.lean`,
-`Search.lean`).
+Path: the property theorems of C11.  Helper lemmas: `Lemmas.lean` (walks, potentials, paths),
+`BellmanFord.lean` + `BFRounds.lean`, `Search.lean` (BFS/DFS), `HSearch.lean` + `Dijkstra.lean`
+(Dijkstra/A*), `FloydWarshall.lean` + `FWLower.lean`, `Sqrt2.lean` (`ℤ[√2]`, imports Mathlib reals).
 
 Specification vocabulary (`Model.lean`): `Walk E u t c` — a walk from `u` to `t` along edges of the
 edge list `E` whose weights sum to `c`; `Reach E s t`; `IsDist E s t c` — `c` is the weight of a
@@ -144,8 +147,8 @@ endpoints not even required to be in range), start `s < n` and optional target: 
 * in target mode INFEASIBLE is answered exactly when the target is unreachable, the reported
   objective is the exact distance, and the returned path is accepted by the checker `pathOK`:
   it starts at `s`, ends at the target, uses existing edges and its weights sum to the objective.
-(The converse "UNBOUNDED ⇒ a negative cycle is reachable" is `bf_rounds_bound` [S]; on every explored
-input it is decided by `neg_cycle_cert` on the cycle the model extracts.) -/
+(The converse "UNBOUNDED ⇒ a negative cycle is reachable" is `bf_rounds_bound` below; on every explored
+input it is also decided by `neg_cycle_cert` on the cycle the model extracts.) -/
 theorem bellman_ford_correct (n : Nat) (E : List (Edge Int)) (s : Nat) (target : Option Nat) (hs : s < n)
     (hnu : (bellmanFord n E s target).status ≠ .UNBOUNDED) :
     (∀ v c, look (bellmanFord n E s target).dist v = some c → IsDist E s v c) ∧
@@ -212,6 +215,24 @@ example : (bellmanFord 4 [(0, 1, 4), (0, 2, 1), (2, 1, -2), (1, 3, 1), (3, 3, 0)
     (bellmanFord 4 [(0, 1, 4), (0, 2, 1), (2, 1, -2), (1, 3, 1), (3, 3, 0), (2, 1, 5)] 0 (some 3)).path = some [0, 2, 1, 3] ∧
     (bellmanFord 4 [(0, 1, 4), (0, 2, 1), (2, 1, -2), (1, 3, 1), (3, 3, 0), (2, 1, 5)] 0 (some 3)).cost = some 0 := by
   decide
+
+/-- C11 `bf_rounds_bound` [S]: the converse of `bellman_ford_correct`.  With all edge heads in range, an
+UNBOUNDED answer of the Bellman-Ford mirror means that a negative cycle is reachable from the start: if
+none were, every walk could be shortened to at most `n - 1` edges without gaining weight, `k` rounds bound
+all walks of at most `k` edges, and so the detection round after `n - 1` rounds would find nothing.
+Together: UNBOUNDED ⇔ a negative cycle is reachable. -/
+theorem bf_rounds_bound (n : Nat) (E : List (Edge Int)) (s : Nat) (target : Option Nat) (hs : s < n)
+    (hE : ∀ e ∈ E, e.2.1 < n) :
+    (bellmanFord n E s target).status = .UNBOUNDED ↔ ∃ x c, Reach E s x ∧ Walk E x x c ∧ c < 0 := by
+  constructor
+  · exact bf_unbounded_neg_cycle target hs hE
+  · rintro ⟨x, c, hx, hc, hneg⟩
+    apply Classical.byContradiction
+    intro hnu
+    have := (bellman_ford_correct n E s target hs hnu).2.2.1 x c hx hc
+    omega
+
+example : (bellmanFord 3 [(0, 1, 1), (1, 2, -3), (2, 1, 1)] 0 none).status = .UNBOUNDED := by decide
 
 /-! ## T-model: DFS and BFS (`solvor/bfs.py`), for every input
 
@@ -498,20 +519,11 @@ example : (astar 4 [(0, 1, 1), (0, 2, 6), (1, 3, 100), (2, 3, 1)] 0 [3] [7, 100,
 
 /-! ## T-model: Floyd-Warshall (`solvor/floyd_warshall.py`), the ∀-input half -/
 
--- FULL STATEMENT (not proved): floyd_warshall_certifies —
---   ∀ n E directed, (∀ e ∈ E, e.1 < n ∧ e.2.1 < n) → let E' := if directed then E else symE E
---     ((floydWarshall n E directed).status = .UNBOUNDED ↔ ∃ x c, c < 0 ∧ Walk E' x x c) ∧
---     (∀ m, (floydWarshall n E directed).mat = some m → ∀ i j, i < n → j < n →
---        (∀ c, Mat.get m i j = some c → IsDist E' i j c) ∧ (Mat.get m i j = none → ¬ Reach E' i j))
--- Proved below: the "upper bound" half (every finite entry is a real walk, UNBOUNDED exhibits a negative
--- closed walk).  The "lower bound" half (rows are feasible potentials; a negative cycle makes a diagonal
--- entry negative) is decided on every explored input by comparing the matrix with the Bellman-Ford
--- distances from every source (`bellman_ford_correct`) and by `neg_cycle_cert`.
-/-- C11 `floyd_warshall_certifies_partial` ([S], ∀-input half): for every edge list (`directed` or not),
+/-- C11 `floyd_warshall_real` (∀-input, no range hypothesis): for every edge list (`directed` or not),
 every finite entry `dist[i][j]` of the mirror's matrix is the weight of a real walk from `i` to `j` (a reported
 distance is always attained), and an UNBOUNDED answer comes with a closed walk of negative weight (a negative
 cycle is present). -/
-theorem floyd_warshall_certifies_partial (n : Nat) (E : List (Edge Int)) (directed : Bool) :
+theorem floyd_warshall_real (n : Nat) (E : List (Edge Int)) (directed : Bool) :
     ((floydWarshall n E directed).status = .UNBOUNDED →
       ∃ x c, c < 0 ∧ Walk (if directed then E else symE E) x x c) ∧
     (∀ m, (floydWarshall n E directed).mat = some m →
@@ -531,6 +543,73 @@ theorem floyd_warshall_certifies_partial (n : Nat) (E : List (Edge Int)) (direct
   · refine ⟨fun h => (by cases h), fun m h => ?_⟩
     cases h
     exact hr
+
+/-- C11 `floyd_warshall_certifies` [S].  For every edge list with endpoints in range (duplicates, self
+loops, negative weights, `directed` or not; `E'` = the edge list, symmetrised if undirected):
+* UNBOUNDED is answered **exactly when** a negative cycle is present (a closed walk of negative weight);
+* otherwise every entry of the returned matrix is exact: a finite `dist[i][j]` is the shortest-path
+  distance from `i` to `j`, an infinite one means `j` is unreachable from `i`.
+(Proof: every entry is a real walk; if no diagonal entry ends negative then none was negative during the
+run, so phase `K` makes every entry at most the weight of every walk with intermediate nodes `≤ K`.) -/
+theorem floyd_warshall_certifies (n : Nat) (E : List (Edge Int)) (directed : Bool)
+    (hE : ∀ e ∈ E, e.1 < n ∧ e.2.1 < n) :
+    ((floydWarshall n E directed).status = .UNBOUNDED ↔
+      ∃ x c, c < 0 ∧ Walk (if directed then E else symE E) x x c) ∧
+    (∀ m, (floydWarshall n E directed).mat = some m → ∀ i j, i < n → j < n →
+      (∀ c, Mat.get m i j = some c → IsDist (if directed then E else symE E) i j c) ∧
+      (Mat.get m i j = none → ¬ Reach (if directed then E else symE E) i j)) := by
+  have hE' : ∀ e ∈ (if directed then E else symE E), e.1 < n ∧ e.2.1 < n := by
+    intro e he
+    cases directed with
+    | true => exact hE e (by simpa using he)
+    | false =>
+      simp only [Bool.false_eq_true, if_false, symE, List.mem_flatMap] at he
+      obtain ⟨e0, h0, hm⟩ := he
+      simp only [List.mem_cons, List.mem_nil_iff, or_false] at hm
+      rcases hm with h | h
+      · rw [h]; exact hE e0 h0
+      · rw [h]; exact ⟨(hE e0 h0).2, (hE e0 h0).1⟩
+  obtain ⟨hd0, hp0⟩ := fwInit_spec n E directed hE
+  have hreal := fwReal_loop n (fwReal_init n E directed)
+  -- if no diagonal entry is negative at the end, every entry bounds every walk
+  have hlow : (∀ i, i < n → ∀ d, Mat.get (fwLoop n (fwInit n E directed)) i i = some d → 0 ≤ d) →
+      ∀ i j c, i < n → j < n → Walk (if directed then E else symE E) i j c →
+        ∃ d, Mat.get (fwLoop n (fwInit n E directed)) i j = some d ∧ d ≤ c := by
+    intro hfin i j c hi hj hw
+    have := fw_lower hd0 hp0 hfin n (Nat.le_refl n)
+    rw [← fwLoop_eq] at this
+    exact this i j c hi hj (Walk.toK (fun e he => (hE' e he).2) hw)
+  have hpart := floyd_warshall_real n E directed
+  unfold floydWarshall at hpart ⊢
+  simp only [] at hpart ⊢
+  split
+  · next hany =>
+    rw [if_pos hany] at hpart
+    refine ⟨⟨fun _ => hpart.1 rfl, fun _ => rfl⟩, fun m h => (by cases h)⟩
+  · next hany =>
+    have hfin : ∀ i, i < n → ∀ d, Mat.get (fwLoop n (fwInit n E directed)) i i = some d → 0 ≤ d := by
+      intro i hi d hdd
+      apply Classical.byContradiction
+      intro hneg
+      apply hany
+      exact List.any_eq_true.mpr ⟨i, List.mem_range.mpr hi, by simp only [hdd, decide_eq_true_eq]; omega⟩
+    refine ⟨⟨fun h => (by cases h), ?_⟩, ?_⟩
+    · rintro ⟨x, c, hneg, hw⟩
+      exfalso
+      have hx : x < n := by
+        cases hw with
+        | nil => omega
+        | cons he _ => exact (hE' _ he).1
+      obtain ⟨d, hdd, hle⟩ := hlow hfin x x c hx hx hw
+      have := hfin x hx d hdd
+      omega
+    · intro m hm i j hi hj
+      cases hm
+      refine ⟨fun c hc => ⟨hreal i j c hc, fun c' hw => ?_⟩, fun hnone ⟨c, hw⟩ => ?_⟩
+      · obtain ⟨d, hdd, hle⟩ := hlow hfin i j c' hi hj hw
+        rw [hc] at hdd; cases hdd; exact hle
+      · obtain ⟨d, hdd, _⟩ := hlow hfin i j c hi hj hw
+        rw [hnone] at hdd; cases hdd
 
 example : (floydWarshall 3 [(0, 1, 1), (1, 2, -3), (2, 1, 1)] true).status = .UNBOUNDED ∧
     (floydWarshall 3 [(0, 1, 4), (1, 2, -3), (0, 2, 2)] true).mat = some [[some 0, some 4, some 1], [none, some 0, some (-3)], [none, none, some 0]] := by
